@@ -21,6 +21,9 @@ type Driver struct {
 	RandomRuns  int
 	FreeRunning bool
 	FreeRuns    int
+	// MultiBlockRelease: free-running runs start with the multi-block same-handle release
+	// warm-up (see ConcCase.MultiBlockRelease).
+	MultiBlockRelease bool
 
 	reported map[string]bool
 }
@@ -101,7 +104,7 @@ func (d *Driver) report(o *RunOutcome, what string) bool {
 func (d *Driver) Run() {
 	c, cc := d.C, d.CC
 	if d.FreeRunning {
-		cc.MultiBlockRelease = true
+		cc.MultiBlockRelease = d.MultiBlockRelease
 		for i := 0; i < d.FreeRuns; i++ {
 			plan := RunPlan{Seed: d.Seed + int64(i), Mode: dsched.Free,
 				Fault: FaultPlan{PSpurious: 0.05, PAbort: 0.01, PLost: 0.01, PCrash: 0.005, MaxRandom: 2}}
